@@ -11,9 +11,11 @@ import (
 	"io"
 	"math"
 	"net/url"
+	"os"
 	"strconv"
 	"strings"
 	"sync/atomic"
+	"time"
 	"unicode/utf8"
 
 	"github.com/risor-io/risor/builtins"
@@ -543,7 +545,7 @@ var jsonD0 = func() []val {
 	out := []val{vnil, vB(true), vB(false)}
 	out = append(out, poolI...)
 	out = append(out, poolF...)
-	out = append(out, poolS...)
+	out = append(out, poolSJ...)
 	return out
 }()
 
@@ -606,6 +608,13 @@ func scriptValueExpr(gb *globalsBuilder, v val, depth int) string {
 // ---------------------------------------------------------------- part C driver
 
 func partC(r *ev.Run, stride int) {
+	t0 := time.Now()
+	lap := func(what string) {
+		if os.Getenv("VERIF_C19_TIMING") != "" {
+			fmt.Fprintf(os.Stderr, "c19 timing: %s %.1fs\n", what, time.Since(t0).Seconds())
+		}
+		t0 = time.Now()
+	}
 	var nRT, nMal, nAgree, nScript int64
 	// ---- C1 over the byte codecs and urlquery
 	byteVals := append(append([]val{}, poolB...), poolS...)
@@ -628,6 +637,7 @@ func partC(r *ev.Run, stride int) {
 	}
 	r.Sample(map[string]any{"part": "C1", "codec": "hex", "value": byteVals[4].tok(), "observed": observeObject("hex", byteVals[4]).enc})
 
+	lap("bytecodecs")
 	// ---- C1 + C3(encode side) for json: depth 0, 1 and extras - object route all, script route all
 	small := append(append([]val{}, jsonU...), jsonExtras...)
 	ev.ParFor(len(small), func(i int) {
@@ -657,6 +667,7 @@ func partC(r *ev.Run, stride int) {
 	})
 	nRT += int64(len(small))
 
+	lap("json d<=1")
 	// ---- json depth 2: [c], {"a": c} for every c in U (both tiers); [c, d], {"a": c, "é": d} for all pairs (thorough)
 	U := jsonU
 	wide := r.Thorough()
@@ -679,11 +690,13 @@ func partC(r *ev.Run, stride int) {
 		}
 		do(vl(c), 0)
 		do(vm("a", c), 1)
+		second := jsonD0 // quick: second element over the scalars only
 		if wide {
-			for di, d := range U {
-				do(vl(c, d), di)
-				do(vm("a", c, "é", d), di+1)
-			}
+			second = U
+		}
+		for di, d := range second {
+			do(vl(c, d), di)
+			do(vm("a", c, "é", d), di+1)
 		}
 		for lo := 0; lo < len(forScript); lo += per {
 			hi := lo + per
@@ -708,8 +721,10 @@ func partC(r *ev.Run, stride int) {
 		atomic.AddInt64(&nRT, int64(cnt))
 	})
 	r.Set("json_values_depth_le1", len(jsonU))
-	r.Sample(map[string]any{"part": "C1", "codec": "json", "value": U[len(U)/2].tok(), "observed": observeObject("json", U[len(U)/2]).enc})
+	sx := vm("a", vl(vi(math.MaxInt64), vf(0.5)), "é", vs("é<"))
+	r.Sample(map[string]any{"part": "C1", "codec": "json", "value": sx.tok(), "encoded": observeObject("json", sx).enc, "decoded_equals_original": observeObject("json", sx).eq})
 
+	lap("json d2")
 	// ---- json.marshal with an indent argument: unmarshal(marshal(x, indent)) == x
 	for _, indent := range []string{"", "  ", "\t"} {
 		ev.ParFor(len(jsonU), func(i int) {
@@ -735,6 +750,7 @@ func partC(r *ev.Run, stride int) {
 		nRT += int64(len(jsonU))
 	}
 
+	lap("indent")
 	// ---- C2 malformed inputs (+ C3 decode side for json)
 	for _, codec := range codecOrder {
 		spec := codecSpecs[codec]
@@ -804,6 +820,7 @@ func partC(r *ev.Run, stride int) {
 			r.EngineError("malformed set for " + codec + " is one-sided (Go accepts " + fmt.Sprint(accepted) + ", rejects " + fmt.Sprint(rejected) + ")")
 		}
 	}
+	lap("malformed")
 	r.Sample(map[string]any{"part": "C2", "codec": "base64", "input": vs("AA=!").tok(), "go": "rejects"})
 	r.Set("roundtrip_cases", int(nRT))
 	r.Set("malformed_cases", int(nMal))
